@@ -28,6 +28,9 @@ func genTFTree(r *rng.R, root spec.Kind, maxDepth int) *spec.Spec {
 		if depth == 1 && n == 0 {
 			n = 2
 		}
+		if k == spec.List && r.Chance(1, 15) {
+			n = []int{11, 12, 23, 101}[r.Intn(4)] // two- and three-digit indices
+		}
 		for i := 0; i < n; i++ {
 			var v *spec.Spec
 			if depth < maxDepth && r.Chance(5, 10) {
